@@ -17,6 +17,7 @@ import (
 	"github.com/cossacklabs/acra/acrastruct"
 	"github.com/cossacklabs/acra/crypto"
 	"github.com/cossacklabs/acra/decryptor/base"
+	"github.com/cossacklabs/acra/encryptor/base/config"
 	"github.com/cossacklabs/acra/keystore"
 	"github.com/cossacklabs/themis/gothemis/keys"
 
@@ -254,6 +255,24 @@ func init() {
 		kv := ParseKV(a[1:5])
 		WithRand(core.UnHex(a[6]), func() {
 			res = out(crypto.NewRegistryHandler(kv).EncryptWithHandler(handlerOf(a[0]), []byte("client"), core.UnHex(a[5])))
+		})
+		return
+	})
+	// the same decision through the settings-driven entry point used by the SQL proxies' encryptor chain
+	core.Register("C01.handler.protectcfg", func(a []string) (res string) { // kind pub privs sym syms d rnd
+		kv := ParseKV(a[1:5])
+		envl := "acrastruct"
+		if a[0] == "block" {
+			envl = "acrablock"
+		}
+		y := "schemas:\n  - table: t\n    columns: [c]\n    encrypted:\n      - column: c\n        crypto_envelope: " + envl + "\n"
+		st, err := config.MapTableSchemaStoreFromConfig([]byte(y), config.UsePostgreSQL)
+		if err != nil {
+			panic("harness: " + err.Error())
+		}
+		setting := st.GetTableSchema("t").GetColumnEncryptionSettings("c")
+		WithRand(core.UnHex(a[6]), func() {
+			res = out(crypto.NewRegistryHandler(kv).EncryptWithClientID([]byte("client"), core.UnHex(a[5]), setting))
 		})
 		return
 	})
